@@ -13,7 +13,7 @@ import (
 )
 
 func init() {
-	core.Register(core.Check{ID: "C14", Level: "exploration", Run: func(c *core.Ctx) { runC14(c); reentrancyPass(c, "C14") }})
+	core.Register(core.Check{ID: "C14", Level: "exploration", Run: func(c *core.Ctx) { runC14(c); historyPass(c, "C14"); reentrancyPass(c, "C14") }})
 }
 
 // ---- reference (digit by digit, shares nothing with the repository) ----
